@@ -6,6 +6,7 @@
     (model evaluated inside Coq on the histories the implementation was run on) and by the tables of
     Gen/C12/Tables.v, regenerated on every run and checked below against the reference hexahedron. *)
 From Coq Require Import List Bool Arith ZArith.
+From CB Require Model.Propagate Model.C12_Regrade Proofs.PropagateTerm Proofs.PropagateFinal Proofs.C12_Regrade Proofs.C12_Tolerance.
 From CB Require Import Base.Hex Model.C12_MeshLife Proofs.C12_Lists Proofs.C12_MeshLife Proofs.C12_Refute.
 From CB Require Import Gen.C12.Tables.
 Import ListNotations.
@@ -81,13 +82,46 @@ Definition C12_delete_frame_stmt : Prop :=
 Definition C12_assemble_geo_stmt : Prop :=
   forall tb c, clean c -> geo_blocks (assemble tb c) = spec_blocks (live_ops c).
 
-(** a second write gives the same file and leaves the same state.
-    FULL statement of the property: for every mesh, including axes whose count is propagated from
-    neighbours.  PROVED PART (hence _partial): the modelled class - every axis of every block chopped by
-    count - where the grading state is the per-axis section list; propagated gradings are outside
-    Model/C12_MeshLife.v (they are the subject of C01/C02) and are covered by the direct oracle only. *)
+(** a second write gives the same file and leaves the same state - for every mesh: axes chopped by the
+    user (one or several chops) and axes whose gradings and chops are PROPAGATED from neighbouring blocks
+    (WirePropagateManager.copy_neighbours / propagate_grading, Axis.copy_grading,
+    BlockList.propagate_gradings: Model/Propagate.v run from the state the first write left,
+    Model/C12_Regrade.v).  Any number of blocks, any sharing of vertices, any state before the first write.
+    [write] iterates coincident wires / neighbour axes in the insertion order of the code; the second
+    statement is the same for EVERY iteration order. *)
 Definition C12_write_idempotent_stmt : Prop :=
   forall tb s s2 ev, write fixed tb s = Ok s2 ev -> write fixed tb s2 = Ok s2 ev.
+Definition C12_write_idempotent_any_order_stmt : Prop :=
+  forall orc tb s s2 ev, write_with orc fixed tb s = Ok s2 ev -> write_with orc fixed tb s2 = Ok s2 ev.
+
+(** the heart of it, on the propagation model itself: a grade that ends without error - from the state
+    assemble leaves or from any other - is followed by a grade that ends without error and changes no wire
+    of the mesh and no axis ([eqin]: equal gradings on every wire of every block) *)
+Definition C12_grade_twice_stmt : Prop :=
+  forall bs o_coin o_nbrs s0 s,
+    C12_Regrade.grade bs o_coin o_nbrs true s0 = C12_Regrade.GOk s ->
+    exists s', C12_Regrade.grade bs o_coin o_nbrs true s = C12_Regrade.GOk s'
+               /\ C12_Regrade.eqin bs s' s /\ Propagate.ach s' = Propagate.ach s.
+
+(** the error [E_model] (fuel of the propagation loop, oracle not an ordering) is an artefact of the model
+    that never shows *)
+Definition C12_write_no_model_error_stmt : Prop :=
+  forall c tb s, write c tb s <> Err E_model.
+
+(** SCOPE of the three statements above: chops that fix a count (every total expansion is 1).  With
+    expansions the code compares gradings of coincident wires up to constants.TOL (Grading.__eq__), and
+    copy_neighbours lets the LAST defined coincident wire win: a wire that took its grading from the only
+    neighbour defined at its turn in the first run takes, in the second run, the tolerance-equal grading
+    of a neighbour graded later.  On the payload model of C04 (Model/C04_Payload.v: rational expansions,
+    tolerance check) exact idempotence is FALSE; the witness is the mesh of the reproduction in
+    notes/C12.md (four boxes, expansions 2 and 2 + 1e-8): *)
+Definition C12_second_write_exact_with_expansions_stmt : Prop :=
+  forall bs tau eor o_coin o_nbrs s s',
+    C04_Payload.final bs eor o_coin o_nbrs = Some s ->
+    C04_Payload.consistent bs tau s = true ->
+    C04_Payload.propagate bs eor o_coin o_nbrs (C04_Payload.fuel4 bs)
+      (C04_Payload.grade_blocks bs eor o_coin s) (seq 0 (C04_Payload.nblocks4 bs)) = C04_Payload.Done s' ->
+    forall b, b < C04_Payload.nblocks4 bs -> C04_Payload.printed tau s' b = C04_Payload.printed tau s b.
 
 (** the original code violated three of these (witnesses in Proofs/C12_Refute.v) *)
 Definition C12_original_write_twice_stmt : Prop :=
@@ -112,7 +146,8 @@ Definition C12_tables_stmt : Prop :=
         edge_axis (fst (nth k (nth a tab_axis_pairs []) (0, 0))) (snd (nth k (nth a tab_axis_pairs []) (0, 0))) = Some a)
   /\ (forall a, a < 3 -> length (nth a tab_axis_pairs []) = 4
         /\ nodupb (map (fun p => 8 * Nat.min (fst p) (snd p) + Nat.max (fst p) (snd p)) (nth a tab_axis_pairs [])) = true)
-  /\ tb = tb0.
+  /\ tb = tb0
+  /\ axis_pairs tb = Propagate.axis_pairs.
 
 (** ** theorems *)
 Theorem C12_clear_assemble : C12_clear_assemble_stmt.
@@ -145,8 +180,20 @@ Proof. intros tb c x H. split; [exact (delete_frame tb c x H)|exact (delete_is_n
 Theorem C12_assemble_geo : C12_assemble_geo_stmt.
 Proof. exact assemble_geo. Qed.
 
-Theorem C12_write_idempotent_partial : C12_write_idempotent_stmt.
+Theorem C12_write_idempotent : C12_write_idempotent_stmt.
 Proof. exact write_idempotent. Qed.
+
+Theorem C12_write_idempotent_any_order : C12_write_idempotent_any_order_stmt.
+Proof. exact write_with_idempotent. Qed.
+
+Theorem C12_grade_twice : C12_grade_twice_stmt.
+Proof. exact C12_Regrade.grade_twice. Qed.
+
+Theorem C12_write_no_model_error : C12_write_no_model_error_stmt.
+Proof. exact write_no_model_error. Qed.
+
+Theorem C12_second_write_exact_with_expansions_refuted : ~ C12_second_write_exact_with_expansions_stmt.
+Proof. exact C12_Tolerance.second_write_exact_refuted. Qed.
 
 Theorem C12_original_write_twice_refuted : ~ C12_original_write_twice_stmt.
 Proof. exact original_write_twice_refuted. Qed.
@@ -184,7 +231,7 @@ Proof.
       by (vm_compute; reflexivity).
     rewrite forallb_forall in H. intros a Ia. specialize (H a Ia). apply andb_true_iff in H. destruct H as [H1 H2].
     apply Nat.eqb_eq in H1. auto. }
-  vm_compute. reflexivity.
+  split; vm_compute; reflexivity.
 Qed.
 
 Print Assumptions C12_clear_assemble.
@@ -197,7 +244,11 @@ Print Assumptions C12_backport_moves.
 Print Assumptions C12_backport_unmoved.
 Print Assumptions C12_delete_frame.
 Print Assumptions C12_assemble_geo.
-Print Assumptions C12_write_idempotent_partial.
+Print Assumptions C12_write_idempotent.
+Print Assumptions C12_write_idempotent_any_order.
+Print Assumptions C12_grade_twice.
+Print Assumptions C12_write_no_model_error.
+Print Assumptions C12_second_write_exact_with_expansions_refuted.
 Print Assumptions C12_original_write_twice_refuted.
 Print Assumptions C12_original_clear_refuted.
 Print Assumptions C12_original_backport_refuted.
